@@ -19,7 +19,7 @@ func init() { core.Register(c10{}) }
 func (c10) ID() string    { return "C10" }
 func (c10) Level() string { return "exploration" }
 func (c10) Rule() string {
-	return "cases = (level index|db, index type, shard count in {1,2,3,4,16,64,1024}, key set of 0..300 keys with shared prefixes / 0xff-heavy keys / one-key and empty sets, plus large populations of 4 Ki..300 K keys sized at and around powers of two and round decimal numbers, direction, prefix incl. empty, whole-key and longer-than-key prefixes); per case 6..12 iterators each driven by 5..200 calls of Rewind/Seek/Next/Valid/Key/Value where the first call on a fresh iterator is Rewind or Seek and every Seek target lies at or ahead of the cursor in iteration order (on an exhausted iterator only targets beyond the last key); the first iterator of every case (the first two over a large population) starts with a complete Rewind..Next walk to exhaustion; after EVERY call (Valid, Key, Value) is compared with a cursor over the sorted snapshot taken from the model at creation; between calls the harness overwrites, deletes and inserts keys before/after the cursor, which must not change any output; ListKeys and Fold (incl. early stop) must equal the same ordered snapshot. Non-trivial: iterator with >=2 non-empty shards, >=1 Seek after a Next and >=1 Rewind after exhaustion; distinct = hash of (level, type, shards, keys, call log)"
+	return "cases = (level index|db, index type, shard count in {1,2,3,4,16,64,1024}, key set of 0..300 keys with shared prefixes / 0xff-heavy keys / one-key and empty sets, plus large populations of 4 Ki..300 K keys sized at and around powers of two and round decimal numbers, direction, prefix incl. empty, whole-key and longer-than-key prefixes); per case 6..12 iterators each driven by 5..200 calls of Rewind/Seek/Next/Valid/Key/Value where the first call on a fresh iterator is Rewind or Seek and every Seek target lies at or ahead of the cursor in iteration order (on an exhausted iterator only targets beyond the last key); the first iterator of every case (the first two over a large population) starts with a complete Rewind..Next walk to exhaustion; after EVERY call (Valid, Key, Value) is compared with a cursor over the sorted snapshot taken from the model at creation, and the slice Value returned is then overwritten by the harness (Value is asked again at the same position after interleaved writes); between calls the harness overwrites, deletes and inserts keys before/after the cursor, which must not change any output; ListKeys and Fold (incl. early stop) must equal the same ordered snapshot. Non-trivial: iterator with >=2 non-empty shards, >=1 Seek after a Next and >=1 Rewind after exhaustion; distinct = hash of (level, type, shards, keys, call log)"
 }
 func (c10) Assumptions() []string {
 	return []string{"Seek to a target behind the cursor is never generated (unclaimed)", "Key/Value/Next on a never-positioned (fresh) iterator are not generated: position first with Rewind or Seek",
@@ -178,6 +178,9 @@ func (i dbIter) ValueEq(w kvPair) (bool, string) {
 	v, err := i.it.Value()
 	if err != nil || !bytes.Equal(v, w.v) {
 		return false, fmt.Sprintf("Value()=len %d h=%s err=%v, want creation-time value len %d h=%s", len(v), core.HashBytes(v)[:8], err, len(w.v), core.HashBytes(w.v)[:8])
+	}
+	for j := range v {
+		v[j] = 0xEE // the caller owns the returned slice; the next Value() at this position must not see this
 	}
 	return true, ""
 }
